@@ -143,7 +143,8 @@ def _compile(scratch, d):
     for e in entries:
         e["files"] = e["files"] or []
         e["dup_names"] = e["dup_names"] or []
-        generated = not e["runtime_gen_err"] and not e["gen_err"] and e["files"]
+        # (file-per-message mode emits nothing for a file without messages: the package is then the runtime's own code alone)
+        generated = not e["runtime_gen_err"] and not e["gen_err"] and (e["files"] or not e["messages"])
         e["compiled"] = bool(generated) and e["go_pkg"] not in failed and not e["dup_names"]
         e["compile_err"] = "; ".join(failed.get(e["go_pkg"], []))[:600]
     # the driver: registry of every message type of every compiled package
@@ -154,8 +155,8 @@ def _compile(scratch, d):
             continue
         alias = "p%d" % n
         n += 1
-        imports.append('\t%s "%s"' % (alias, e["go_pkg"]))
-        for m in e["messages"]:
+        imports.append('\t%s "%s"' % (alias if e["messages"] else "_", e["go_pkg"]))   # (a file without messages: linked, not referenced)
+        for m in (e["messages"] or []):
             exts = ""
             if e["base"] == "p2ext" and m["goname"] == "Base":
                 kinds = ["int32", "int64", "uint64", "sint32", "sint64", "fixed32", "fixed64", "bool", "string", "bytes", "double", "float", "msg", "enum"]
